@@ -480,3 +480,6 @@ func vShapeOf(n interface{}) string {
 	}
 	return "?"
 }
+
+// vMapOrder: natively the runtime randomises map iteration by itself.
+func vMapOrder(on bool) {}
